@@ -470,6 +470,16 @@ class FillRequest(object):
     def reset(self):
         """Reset *el* (ignoring the initialization setting)."""
         self._el_reset()
+        # el is empty now: forget how many values were filled into it
+        # and drop the buffered values and results,
+        # otherwise the next block would be requested too early
+        # (or stale results would be yielded).
+        if hasattr(self, "_n_count"):
+            self._n_count = 0
+            if self._buffer_input:
+                self._buffer_in = []
+            else:
+                self._buffer_out = []
 
     def run(self, flow):
         """Process the *flow* slice by slice.
